@@ -450,48 +450,91 @@ def box_cond(ins, box):
     return z3.And(cs) if cs else z3.BoolVal(True)
 
 
+def forward_eval(enc, ins, vec):
+    """Evaluate the encoding on concrete inputs by walking the (ordered, definitional) constraints:
+    `v == term` defs are evaluated by substitution; multi-variable defs (div/mod, bit decompositions)
+    by a tiny local solver call. Returns a z3 model-like dict name->value wrapper or None."""
+    subs = []
+    known = {}
+    for c, val in zip(ins, vec):
+        v = z3.BoolVal(bool(val)) if z3.is_bool(c) else z3.IntVal(val)
+        subs.append((c, v))
+        known[c.get_id()] = v
+
+    def ev(t):
+        return z3.simplify(z3.substitute(t, *subs))
+
+    for defined, cons in enc.defs:
+        if all(d in known for d in defined):
+            continue
+        done = False
+        if len(defined) == 1 and z3.is_eq(cons):
+            lhs, rhs = cons.children()
+            if z3.is_const(lhs) and lhs.get_id() == defined[0]:
+                val = ev(rhs)
+                if z3.is_int_value(val) or z3.is_true(val) or z3.is_false(val):
+                    subs.append((lhs, val))
+                    known[defined[0]] = val
+                    done = True
+        if not done:
+            s = z3.Solver()
+            s.set("timeout", 10000)
+            c2 = ev(cons)
+            s.add(c2)
+            r = s.check()
+            if r != z3.sat:
+                return None, "def %s: %s" % (str(cons)[:120], r)
+            m = s.model()
+            for d in m.decls():
+                cst = d()
+                if cst.get_id() in defined:
+                    val = m[d]
+                    subs.append((cst, val))
+                    known[cst.get_id()] = val
+            # uniqueness is by construction; unconstrained defined vars keep completion value
+    return ev, None
+
+
 def validate(enc, kspec, variant, ret_ty):
     ins = [c for (_, c, _) in enc.inputs]
-    vres = {"vectors": 0, "mismatches": [], "samples": []}
+    vres = {"vectors": 0, "mismatches": [], "samples": [], "undecided": 0}
     nat = G["native"].get((kspec.name, variant), [])
-    s = z3.Solver()
-    s.set("timeout", 5000)
-    for _, c in enc.defs:
-        s.add(c)
     panic_any = z3.Or([ob.cond for ob in enc.obligations]) if enc.obligations else z3.BoolVal(False)
+
+    class M:
+        def __init__(self, ev):
+            self.ev = ev
+
+        def eval(self, t, model_completion=True):
+            return self.ev(t)
+
     for vec, natout in nat:
-        s.push()
-        for c, val in zip(ins, vec):
-            s.add(c == (z3.BoolVal(bool(val)) if z3.is_bool(c) else z3.IntVal(val)))
-        r = s.check()
         vres["vectors"] += 1
-        if r == z3.unknown:
-            vres["undecided"] = vres.get("undecided", 0) + 1
-            s.pop()
+        ev, err = forward_eval(enc, ins, vec)
+        if ev is None:
+            if "unsat" in err:
+                vres["mismatches"].append({"inputs": vec, "native": natout, "encoding": "inconsistent on concrete inputs: " + err})
+            else:
+                vres["undecided"] += 1
             continue
-        if r != z3.sat:
-            vres["mismatches"].append({"inputs": vec, "native": natout, "encoding": "solver said %s on concrete inputs" % r})
-            s.pop()
-            continue
-        m = s.model()
-        enc_panics = z3.is_true(m.eval(panic_any, model_completion=True))
-        enc_returns = z3.is_true(m.eval(enc.ret_cond, model_completion=True))
+        m = M(ev)
+        enc_panics = z3.is_true(ev(panic_any))
+        enc_returns = z3.is_true(ev(enc.ret_cond))
         if natout == "PANIC":
             if not enc_panics or enc_returns:
                 vres["mismatches"].append({"inputs": vec, "native": natout, "encoding": "returns=%s panics=%s" % (enc_returns, enc_panics)})
         elif natout.startswith("OK "):
             try:
                 pv = DebugParser(natout[3:]).parse(ret_ty)
-                ev = eval_value(m, enc.ret_val, ret_ty) if enc_returns else "NO-RETURN"
+                evv = eval_value(m, enc.ret_val, ret_ty) if enc_returns else "NO-RETURN"
             except Exception as e:
-                pv, ev = natout, "eval failed: %s" % e
-            if enc_panics or pv != ev:
-                vres["mismatches"].append({"inputs": vec, "native": natout, "encoding": repr(ev), "enc_panics": enc_panics})
+                pv, evv = natout, "eval failed: %s" % e
+            if enc_panics or pv != evv:
+                vres["mismatches"].append({"inputs": vec, "native": natout, "encoding": repr(evv), "enc_panics": enc_panics})
             elif len(vres["samples"]) < 3:
                 vres["samples"].append({"inputs": vec, "native": natout})
         else:
             vres["mismatches"].append({"inputs": vec, "native": natout, "encoding": "?"})
-        s.pop()
     return vres
 
 
